@@ -22,6 +22,7 @@ type Event struct {
 	Iface  string // interface type for invokes
 	Static *ssa.Function
 	Args   []Val // snapshots (pointer arguments resolved to their contents at call time)
+	ArgTypes []types.Type
 	Res    []Val
 	Seq    int
 	Pos    token.Pos
@@ -33,6 +34,7 @@ type SnapPtr struct {
 	Nil     string
 	Content Val
 	Cell    *Cell
+	ElemT   types.Type
 }
 
 type Oblig struct {
@@ -95,6 +97,9 @@ type Engine struct {
 	exitState   *State
 	exitVals    []Val
 	exitReach   string
+	effectMatches map[string]int
+	noInline      map[string]bool // full names of callees that effect patterns speak about: they must stay events
+	quiet         int
 }
 
 func (e *Engine) bv() bool { return e.cfg.Arith == "bv" }
@@ -245,6 +250,11 @@ func (e *Engine) srcKey(pos token.Pos) string {
 
 func (e *Engine) oblige(kind, label, reach, goal string, pos token.Pos) *Oblig {
 	if e.pure > 0 || goal == "true" || reach == "false" {
+		return nil
+	}
+	if e.quiet > 0 {
+		// inside an inlined closure that is verified on its own: its obligations are assumed here, checked there
+		e.fact(imp(reach, goal))
 		return nil
 	}
 	name := fnDisplayName(e.top) + "#" + kind
@@ -572,6 +582,9 @@ func (e *Engine) rangeFacts(v Val, t types.Type) {
 func (e *Engine) materialise(st *State, p PtrV, reach string, pos token.Pos) PtrV {
 	if e.cfg.NoPanic {
 		e.oblige("nopanic", "nil-deref", reach, not(p.Nil), pos)
+	}
+	if p.Cell == nil && strings.HasPrefix(p.Name, "mergedptr!") {
+		panic(unsupported{"dereference of a pointer that may point to two different objects"})
 	}
 	if p.Cell == nil {
 		c := e.ptrCell[p.Name]
@@ -1414,6 +1427,17 @@ func (e *Engine) enterLoop(f *frame, st *State, li *loopInfo, reach string, top 
 						if fp.Name() == name {
 							ia = append(ia, e.entryParam(f, s, i))
 							found = true
+						}
+					}
+					if !found {
+						// captured variable of a closure under contract
+						for _, fv := range fn.FreeVars {
+							if fv.Name() == name {
+								if v := e.load(s, f.env[fv], fv.Type().(*types.Pointer).Elem(), "true", token.NoPos); v != nil {
+									ia = append(ia, v)
+									found = true
+								}
+							}
 						}
 					}
 					if !found {
